@@ -14,6 +14,15 @@
 
   The Vi side (x X s D dd yy p P "ap, visual y/d/x, named registers) is in `Model/C09Vi.lean`.
 
+  The model follows /repo including the fix commits found by this check:
+    a2fc709  kill-word: a repeat appends only when the previous kill-word killed something
+             (`EmacsState.last_kill_word_killed`, here `St.kwKilled`),
+    3d7917f  vi `dd` keeps empty first / last lines; linewise operators store one empty line,
+    0c4b424  `Document.cut_selection` strips only the newline that terminates the last selected line,
+    45b8a77  operators on a visual BLOCK selection include the column under the cursor.
+  Kept as it is in the code (observed, not part of C09): kill-word with a NEGATIVE argument passes a
+  negative count to `Buffer.delete`, which removes `text_after_cursor[:-k]` (forward).
+
   Conventions: `reSpace` models regex `\s` (runtime, parameter).  Core Lean only.
 -/
 import Ptk.Py
